@@ -92,8 +92,10 @@ let one_case () =
         (match getobj st l with Some (OT p) -> emit [hx (t_total numf p)] | _ -> emit ["E:TypeError"])
     | "CD" -> let l = nint () in let u = unit_of (nint ()) in let t = nfl () in
         (match getobj st l with
-         | Some (OT (Box (tu, ts, te))) -> emit [hx (box_cdf numf tu ts te u t)]
+         | Some (OT p) -> (match t_cdf numf p u t with Some v -> emit [hx v] | None -> emit ["E:TypeError"])
          | _ -> emit ["E:TypeError"])
+    | "TU" -> let l = nnat () in
+        (match ffm_to_internal numf st l with Ok v -> emit [hx v] | Err e -> emit ["E:" ^ errname e])
     | "SC" -> let l = nint () in let a = nfl () in let b = nfl () in
         (match getobj st l with Some (OS p) -> emit [hx (s_call numf p a b)] | _ -> emit ["E:TypeError"])
     | "FC" -> let l = nnat () in
